@@ -100,7 +100,7 @@ class Run:
         """Fail the run (analysis error) if the rule matched fewer instances than confirmed by hand."""
         found = self.count(rule)
         self.floors[rule] = (found, n)
-        if found < n:
+        if found < n and not self.findings:
             und = [u for u in self.undecided_sites if u['rule'].startswith(rule)]
             raise AnalysisError('rule %s matched %d instance(s), floor is %d%s%s' % (
                 rule, found, n, (' (%s)' % what) if what else '',
